@@ -146,6 +146,17 @@ def gen(tier, part):
         for a in A:
             yield a
         yield ("c", "complex:0.0:1.5")
+        # the Boolean constants, alone and where a truth value is expected (arithmetic on them is not in the language)
+        for b in (("c", True), ("c", False)):
+            x = ("v", "x")
+            yield b
+            yield ("not", b)
+            yield ("and", b, x)
+            yield ("or", x, b)
+            yield ("if", b, x, ("v", "<p>x"))
+            yield ("call1", "f", b)
+            yield ("callkw", "f", x, b)
+            yield ("cmp==", x, b)
         yield from ops_over(A, A, FUNCS)
     elif part == "d2a":
         L1 = list(ops_over(A, A if tier == "thorough" else R, FUNCS[:1]))
@@ -174,7 +185,8 @@ def parts(tier):
 
 
 def bounds(tier):
-    return {"depth1": "all operator forms over 11 atoms (+ one complex constant)",
+    return {"depth1": "all operator forms over 11 atoms (+ one complex constant; + the Boolean constants alone and in 7 "
+                      "truth-value positions)",
             "depth2": "one child depth-1 (over %s atoms), other child from 4 atoms; plus both children depth-1 over "
                       "reduced atoms" % ("all 11" if tier == "thorough" else "11 x 4"),
             "depth3": "over atoms {x, 1}: one child depth-2, other atom (thorough only)" if tier == "thorough" else "-",
